@@ -185,3 +185,15 @@ class FracField:
 
     posv = real
     opq = real
+
+
+class FracOnly:
+    """exact rationals, polynomial evaluation only"""
+
+    def num(self, q):
+        return Fraction(q)
+
+    def pow(self, x, e):
+        if Fraction(e).denominator != 1:
+            raise ValueError("fractional power")
+        return x ** int(e)
